@@ -700,9 +700,31 @@ class SrvAdapter:
                         me._feed(sub['t'], f)
                 elif sub['act'] == 'EioLost':
                     me._lose(sub['t'], sub['reason'])
+        def run(steps_):
+            for st in steps_:
+                sub = dict(st)
+                if sub['t'] in me.closed or sub['t'] not in me.socks:
+                    continue
+                if sub['act'] in ('RxAck',):
+                    for f in me._frames(sub):
+                        me._feed(sub['t'], f)
+                elif sub['act'] == 'EioLost':
+                    me._lose(sub['t'], sub['reason'])
         if self.is_async:
             return self._do_call_async(a, script)
         orig_send = sio.eio.send
+        orig_create = sio.eio.create_event
+        if a.get('before'):
+            # other threads get ahead while call() is still preparing (it
+            # creates its event before it emits)
+            done = []
+
+            def create(*x, **k):
+                if not done:
+                    done.append(1)
+                    run(a['before'])
+                return orig_create(*x, **k)
+            sio.eio.create_event = create
         if a.get('early'):
             # the client answers at once: the ACK (or the loss) is processed
             # by another thread before call() has started to wait
@@ -729,6 +751,7 @@ class SrvAdapter:
         finally:
             self.wait_script = None
             sio.eio.send = orig_send
+            sio.eio.create_event = orig_create
         return ['ok'] + self._shape(r)
 
     def _shape(self, r):
@@ -743,7 +766,7 @@ class SrvAdapter:
         steps = a['during']
         me = self
 
-        async def world():
+        async def world(steps=steps):
             if True:
                 for st in steps:
                     if st['t'] in me.closed or st['t'] not in me.socks:
@@ -770,6 +793,8 @@ class SrvAdapter:
                     return r
                 sio.eio.send = send
             try:
+                if a.get('before'):
+                    await world(a['before'])
                 call = asyncio.ensure_future(
                     sio.call(a['ev'], val('v1'), to=me._real_sid(a['sid']),
                              namespace=a['ns'], timeout=1))
